@@ -483,6 +483,131 @@ def directed(rnd):
     return out
 
 
+# ---------------------------------------------------------------------- scope stacks of ONE name
+# Nested binders of one name to depth 3-5 (let, forall, exists, over a declared constant, a
+# define-fun'd name or a define-fun parameter), the let VALUES drawn from a pool of two terms so that
+# the same (hash-consed) value recurs at non-adjacent depths (A-B-A, A-B-A-B, A-A-B-A, A-B-B-A ...),
+# and a USE of the name at every position: before and after every inner scope inside the enclosing
+# one, in the innermost scope, and after everything is closed.  Uses are applications of
+# uninterpreted predicates combined by Boolean equality, so that every single use matters to the
+# value of the assertion.  The texts are legal SMT-LIB; the reference reader decides what they mean.
+SCOPE_PATTERNS = ["ABA", "ABA", "ABAB", "AABA", "ABBA", "ABABA", "BAB", "ABAA", "BABA", "ABBAB", "AAB", "ABC"]
+SCOPE_HEAD = "(declare-const a Int)(declare-const b Int)(declare-const c Int)(declare-fun p (Int) Bool)(declare-fun q (Int) Bool)"
+
+
+class ScopeStackGen(object):
+    def __init__(self, rnd):
+        self.r = rnd
+
+    def use(self, names):
+        r = self.r
+        n = r.choice(names)
+        k = r.random()
+        if k < 0.45:
+            return "(%s %s)" % (r.choice("pq"), n)
+        if k < 0.7 and len(names) > 1:
+            return "(%s (+ %s %s))" % (r.choice("pq"), names[0], names[1])
+        if k < 0.85:
+            return "(< %s %s)" % (n, r.choice(["b", "c", "1"]))
+        return "(p (- %s %s))" % (n, r.choice(["c", "2"]))
+
+    def nest(self, name, other, values, kinds, uses_other):
+        """values[i] / kinds[i] for level i (outermost first): the Bool text of the whole nest"""
+        names = [name] + ([other] if uses_other else [])
+        def level(i):
+            if i == len(kinds):
+                return self.use(names)
+            inner = level(i + 1)
+            k, v = kinds[i], values[i]
+            if k == "let":
+                b = "(let ((%s %s)) %s)" % (name, v, inner)
+            elif k == "let2":           # parallel let: the other name gets the other value of the pool
+                pair = [(name, v), (other, values[i - 1] if i else v)]
+                if self.r.random() < 0.5:
+                    pair.reverse()
+                b = "(let (%s) %s)" % (" ".join("(%s %s)" % nv for nv in pair), inner)
+            else:
+                b = "(%s ((%s Int)) %s)" % (k, name, inner)
+            if i == 0:
+                return b
+            form = self.r.random()
+            if form < 0.6:
+                return "(= %s (= %s %s))" % (self.use(names), b, self.use(names))     # a use on both sides
+            if form < 0.8:
+                return "(= %s %s)" % (b, self.use(names))                              # only after
+            return "(= %s %s)" % (self.use(names), b)                                  # only before
+        return level(0)
+
+    def script(self):
+        r = self.r
+        pat = r.choice(SCOPE_PATTERNS)
+        bottom = r.choice(["let", "let", "let", "global", "defined", "param", "let2"])
+        name = "a" if bottom == "global" else "x"
+        other = "z"
+        pool = [v for v in ["a", "b", "(+ a b)", "3", "(* 2 b)", "c", "(- b)"] if bottom != "global" or "a" not in v]
+        A, B, C = r.sample(pool, 3)
+        val = {"A": A, "B": B, "C": C}
+        values = [val[ch] for ch in pat]
+        kinds = []
+        for i, ch in enumerate(pat):
+            k = r.random()
+            kinds.append("let" if k < 0.62 else "let2" if k < 0.78 else r.choice(["forall", "exists"]))
+        kinds[-1] = "let" if r.random() < 0.85 else kinds[-1]        # the innermost scope is usually a let
+        uses_other = "let2" in kinds or bottom == "let2"
+        head = SCOPE_HEAD
+        pre, post = "", ""
+        if uses_other:
+            head += "(declare-const z Int)"
+        if bottom == "global":
+            # the declared constant a is the bottom of the stack; y is an alias of it, so that an inner
+            # let can give a the very value it has at the bottom
+            values = ["y" if v == A else v for v in values]
+            kinds[0] = "let"
+            body = "(let ((y a)) %s)" % self.nest(name, other, values[1:], kinds[1:], uses_other) if len(pat) > 1 else "(p a)"
+            text = head + "(assert %s)" % body
+        elif bottom == "defined":
+            text = head + "(define-fun x () Int %s)(assert %s)" % (values[0], self.nest(name, other, values[1:], kinds[1:], uses_other))
+        elif bottom == "param":
+            text = head + "(define-fun f ((x Int)) Bool %s)(assert (f %s))" % (self.nest(name, other, values[1:], kinds[1:], uses_other), values[0])
+        else:
+            if bottom == "let2":
+                kinds[0] = "let2"
+            text = head + "(assert %s)" % self.nest(name, other, values, kinds, uses_other)
+        if r.random() < 0.5:            # and a use after everything is closed
+            text += "(assert (= (p %s) (q c)))" % {"global": "a", "defined": "x"}.get(bottom, "b")
+        return text
+
+
+def scope_directed(rnd):
+    """(tag, text): one name re-bound to a value it had at a non-adjacent outer level"""
+    r = rnd
+    A, B, C = r.sample(["a", "b", "c", "(+ a b)", "7", "(* 2 b)"], 3)
+    H = SCOPE_HEAD
+    out = []
+    out.append(("aba-let", H + "(assert (let ((x %s)) (let ((x %s)) (= (+ (let ((x %s)) x) x) (+ %s %s)))))" % (A, B, A, A, B)))
+    out.append(("aba-let-pred", H + "(assert (let ((x %s)) (let ((x %s)) (= (p x) (= (let ((x %s)) (q x)) (q x))))))" % (A, B, A)))
+    out.append(("aba-global-alias", H + "(assert (let ((y a)) (let ((a 7)) (= (+ (let ((a y)) a) a) (+ y 7)))))"))
+    out.append(("aba-parallel", H + "(declare-const z Int)(assert (let ((x %s) (z %s)) (let ((x %s) (z %s)) (= (- (let ((z %s) (x %s)) (+ x z)) (+ x z)) (- (+ %s %s) (+ %s %s))))))"
+                % (A, C, B, A, B, A, A, B, B, A)))
+    out.append(("abab-let", H + "(assert (let ((x %s)) (let ((x %s)) (= (p x) (= (let ((x %s)) (= (q x) (= (let ((x %s)) (p x)) (p x)))) (q x))))))" % (A, B, A, B)))
+    out.append(("aaba-let", H + "(assert (let ((x %s)) (let ((x %s)) (let ((x %s)) (= (p x) (= (let ((x %s)) (q x)) (q x)))))))" % (A, A, B, A)))
+    out.append(("abba-let", H + "(assert (let ((x %s)) (let ((x %s)) (let ((x %s)) (= (p x) (= (let ((x %s)) (q x)) (q x)))))))" % (A, B, B, A)))
+    out.append(("aba-quantifier-middle", H + "(assert (let ((x %s)) (forall ((x Int)) (= (p x) (= (let ((x %s)) (q x)) (q x))))))" % (A, A)))
+    out.append(("aba-quantifier-middle-exists", H + "(assert (let ((x %s)) (exists ((x Int)) (and (p x) (= (let ((x %s)) (q x)) (q x))))))" % (A, A)))
+    out.append(("aba-over-defined", H + "(define-fun x () Int %s)(assert (let ((x %s)) (= (p x) (= (let ((x %s)) (q x)) (q x)))))(assert (p x))" % (A, B, A)))
+    out.append(("aba-in-definition-body", H + "(define-fun f ((x Int)) Bool (let ((x %s)) (let ((x %s)) (= (p x) (= (let ((x %s)) (q x)) (q x))))))(assert (f %s))" % (A, B, A, C)))
+    out.append(("aba-over-parameter", H + "(define-fun f ((x Int)) Bool (let ((y x)) (let ((x %s)) (= (p x) (= (let ((x y)) (q x)) (q x))))))(assert (f %s))(assert (f %s))" % (B, A, C)))
+    out.append(("aba-global-quantified-var", H + "(assert (forall ((x Int)) (let ((y x)) (let ((x %s)) (= (p x) (= (let ((x y)) (q x)) (q x)))))))" % B))
+    out.append(("aba-swap-parallel", H + "(declare-const z Int)(assert (let ((x %s) (z %s)) (let ((x z) (z x)) (= (p (+ x (* 2 z))) (= (let ((x z) (z x)) (q (+ x (* 2 z)))) (q (+ x (* 2 z))))))))" % (A, B)))
+    out.append(("aba-get-value", H + "(get-value ((let ((x %s)) (let ((x %s)) (+ (let ((x %s)) x) x)))))" % (A, B, A)))
+    # (open finding definefun-captures, let path: a let-bound term under a quantifier over one of its symbols)
+    out.append(("let-value-captured-by-quantifier", H + "(assert (let ((y a)) (forall ((a Int)) (= (p a) (= (let ((a y)) (q a)) (p a))))))"))
+    out.append(("let-value-captured-by-quantifier2", H + "(assert (forall ((a Int)) (let ((y a)) (exists ((a Int)) (and (> a y) (p y))))))"))
+    out.append(("ctl-2-level", H + "(assert (let ((x %s)) (= (+ (let ((x %s)) x) x) (+ %s %s))))" % (A, B, B, A)))
+    out.append(("ctl-abc", H + "(assert (let ((x %s)) (let ((x %s)) (= (+ (let ((x %s)) x) x) (+ %s %s)))))" % (A, B, C, C, B)))
+    return out
+
+
 # ---------------------------------------------------------------------- malformed stream
 BAD_ATOMS = ["#b", "#x", "#b2", "#xZ", "#", "#B1", "1e3", "+3", "007", "1/2", ".5", "5.", "1_0", "||", "|a\\|b|", "|a\\xb|", "|)|", "|(|",
              "|let|", "|5|", "|true|", "|_|", "\"unterminated", "|unterminated", ":kw", "let", "forall", "_", "!", "as", "and", "Int", "1.d", "0x10",
